@@ -29,8 +29,8 @@ TRACEBACK_MARK = "Traceback (most recent call last)"
 _MASKS = [
     (re.compile(r"identifier: \S+"), "identifier: <X>"),
     (re.compile(r"(but got|got|got at index \d+|got at the index \d+): .*"), r"got: <X>"),
-    (re.compile(r"'[^']*'"), "'<S>'"),
-    (re.compile(r'"[^"]*"'), '"<S>"'),
+    (re.compile(r"'[^']*'"), "<S>"),  # repr() picks the quote by content: mask both alike
+    (re.compile(r'"[^"]*"'), "<S>"),
     (re.compile(r"\d+"), "<N>"),
 ]
 
